@@ -89,6 +89,8 @@ class Ctx:
         self.max_iter = 1 if tier == "quick" else 2
         self.ex = Executor(self.program, max_paths=4096 if tier == "quick" else 200000)
         self.all_sites: List[Site] = find_sites(self.program)
+        self.unresolved = {}     # handler qualname -> first call of a function value that could not be resolved
+        self.scope = None        # set of module paths: rules that quantify over "all sites" then only see these modules
         self._cache = {}
         self.total_paths = 0
 
@@ -96,10 +98,15 @@ class Ctx:
     def sites(self) -> List[Site]:
         """Every construction site; a site that could not be modelled fails the rules that quantify over all sites
         (and only those: anchored rules consult their own module)."""
-        for s in self.all_sites:
+        sel = [s for s in self.all_sites if self.scope is None or s.anchor_rel in self.scope]
+        for s in sel:
             if s.error:
                 raise AnalysisError(s.error)
-        return self.all_sites
+        return sel
+
+    def scaled(self, n):
+        """minimum instance count of an all-sites rule: the count confirmed by reading, 1 under a module scope"""
+        return n if self.scope is None else 1
 
     # ---- anchors -----------------------------------------------------
     def site(self, relpath, suffix, kind=None, states=None, pick=None) -> Site:
@@ -111,8 +118,9 @@ class Ctx:
         self.program.module(relpath)
         in_mod = [s for s in self.all_sites if s.anchor_rel == relpath]
         for s in in_mod:
-            if s.error:
+            if s.error and (kind is None or (s.ctor != "create") == (kind == "mux")):
                 raise AnalysisError(s.error)
+        in_mod = [s for s in in_mod if not s.error]
         cands = [s for s in in_mod if s.short.endswith(suffix)]
         if len(cands) != 1:
             factory = suffix.split(".")[0]
@@ -129,6 +137,9 @@ class Ctx:
                 if b is not None and b[0] == "def":
                     used = {n.id for n in _ast.walk(b[1]) if isinstance(n, _ast.Name)}
                     cands = [s for s in in_mod if s.short.split(".")[0] in used]
+            if not cands:
+                # last resort: the only site of that kind in the module
+                cands = list(in_mod)
             if kind is not None:
                 cands = [s for s in cands if (s.ctor != "create") == (kind == "mux")]
             if states is not None and len(cands) > 1:
@@ -222,7 +233,11 @@ class Ctx:
         return out
 
     def mux_sites(self) -> List[Site]:
-        return [s for s in self.sites if s.ctor in ("mux", "muxconn")]
+        sel = [s for s in self.all_sites if s.ctor in ("mux", "muxconn") and (self.scope is None or s.anchor_rel in self.scope)]
+        for s in sel:
+            if s.error:
+                raise AnalysisError(s.error)
+        return sel
 
     def function(self, relpath, qualname):
         m = self.program.module(relpath)
@@ -263,6 +278,11 @@ class Ctx:
             ps = self.ex.run(spec, kind, cfg, max_iter=mi)
             self.total_paths += len(ps)
             self._cache[key] = ps
+            for p in ps:
+                for e in p.trace:
+                    if e.k == "call" and e.d.get("unresolved"):
+                        from .terms import show
+                        self.unresolved.setdefault(spec.qualname, "%s calls %s, a function value the analysis could not resolve" % (e.where(), show(e.func)))
         return self._cache[key]
 
     def all_paths(self, spec: HandlerSpec, kinds=KINDS, max_iter=None):
@@ -282,6 +302,20 @@ class Ctx:
             self.total_paths += len(ps)
             self._cache[key] = ps
         return self._cache[key]
+
+
+def scoped(rule, rels):
+    """The rule applied to the construction sites of the given modules only (a property about one operator uses the
+    general state / protocol rules on that operator's module, so that it does not depend on unrelated modules)."""
+    def run(ctx):
+        old = ctx.scope
+        ctx.scope = set(rels)
+        try:
+            return rule(ctx)
+        finally:
+            ctx.scope = old
+    run.__name__ = getattr(rule, "__name__", "rule")
+    return run
 
 
 def cfg_str(cfg):
@@ -349,6 +383,22 @@ def run_check(prop_id: str, rules, tier: str, level: str, explanation: str, trus
         print("replay: rule %s on %s -> %s" % (replay_key[0], replay_key[1],
               "still reported" if any(r.findings for r in results) else "no longer reported on this tree"))
 
+    # a finding on a path that goes through code the analysis could not resolve is not a verdict
+    if error is None:
+        for r in results:
+            for f in r.findings:
+                if f.detail.get("unresolved"):
+                    error = "ANALYSIS-ERROR property=%s %s %s: %s (the rule cannot tell what this path does)" % (
+                        prop_id, f.rule, f.construct, f.detail["unresolved"])
+                    break
+            if error:
+                break
+    if error is None and ctx is not None:
+        for r in results:
+            for f in r.findings:
+                for q, why in ctx.unresolved.items():
+                    if f.construct.startswith(q):
+                        error = "ANALYSIS-ERROR property=%s %s %s: %s (the rule cannot tell what the handler does)" % (prop_id, f.rule, f.construct, why)
     known = load_known()
     known_keys = {(k["property"], k["rule"], k["construct"]): k for k in known.get("known", [])}
     violations = []
